@@ -450,6 +450,7 @@ class ModelError(Exception):
 def foreign_goroutine_panic(out):
     """If a go test output ends with a panic whose goroutine has frames of the repository under test and NONE of the
     harness (package path verifharness/), return {msg, where, stack}; else None."""
+    out = "\n" + out
     i = out.rfind("\npanic: ")
     if i < 0:
         return None
@@ -458,6 +459,7 @@ def foreign_goroutine_panic(out):
     if j < 0:
         return None
     block = tail_[j + 1:].split("\n\n")[0]
+    block = "\n".join(l for l in block.splitlines() if not l.startswith(("FAIL", "exit status", "ok ")))
     if "verifharness/" in block or "github.com/nspcc-dev/neo-go/" not in block:
         return None
     where = ""
